@@ -12,7 +12,8 @@ EXPLANATION = (
     "Vegas.limit) is within [min_limit, max_limit], which holds for every interleaving because each write is "
     "individually clamped; (GATE) that poll_ready answers Pending for capacity only under in_flight >= limit(), "
     "after waking the task, and otherwise forwards to the wrapped service. Not decided: (x as f64 * k) as usize "
-    "<= x assumes limits < 2^53 and k in [0,1] (the property's stated range).")
+    "<= x assumes limits < 2^53 and k in [0,1] (the property's stated range)."
+    ' Float-to-integer casts prove nothing (a product with a factor <= 1 can still round up): every such value must be clamped explicitly.')
 RULE = "one obligation per acquire site x exit class, per limit write site, per Pending return site"
 TRUSTED = ["std atomics", "rustc MIR construction incl. drop/unwind/coroutine-drop edges", "may-unwind policy table (DESIGN §2.2)"]
 ASSUMPTIONS = ["min_limit <= max_limit", "decrease factor in [0,1]", "limits < 2^53"]
